@@ -14,6 +14,7 @@ func init() {
 		Runs: func(tier string, seed int64) []*Run {
 			return []*Run{
 				{H: sym.Harness{Pkg: "displayp3", Func: "VerifHarness_C04_LinearStage", Cfg: rerr, Workers: 8}, ExpectReach: []string{"linear-stage"}},
+				{H: sym.Harness{Pkg: "displayp3", Func: "VerifHarness_C04_PixelStages", Cfg: sym.Config{UFTables: true, OneShotAsserts: true, MergeFuncs: quantiserMerge}, Workers: 4, TimeoutMs: 120000}, ExpectReach: []string{"pixel-stages"}, SamplePaths: 1},
 				{H: sym.Harness{Pkg: "displayp3", Func: "VerifHarness_C04_NegControl", Cfg: rerr}, NegControl: true},
 			}
 		},
